@@ -416,18 +416,21 @@ Section Msgs.
 
   (** the values that survive the wire.  Everything excluded here is a theorem of its own in
       Properties/C12.v ([C12_..._refuted]). *)
+  (** the encoded body of a nested message must fit the 4-byte length prefix *)
+  Definition fits (m : msg) : Prop := forall b, enc_body m = MOk b -> len32 b.
+
   Fixpoint valid_msg (m : msg) : Prop :=
     match m with
     | M_Empty _ => True
     | M_OnKill k r _ => valid_kref k /\ len32 r
     | M_OnKilled k => valid_kref k
-    | M_PipeResult id m' e => len32 id /\ valid_msg m' /\ valid_perr e
+    | M_PipeResult id m' e => len32 id /\ valid_msg m' /\ fits m' /\ valid_perr e
     | M_Pong p r => in_i64 p /\ in_i64 r           (* instants UnixNano can represent *)
     | M_Error _ t => len32 t
     | M_Command _ => True
     | M_Ping t => in_i64 t
     | M_PongMessage p r => (exists t, p = Some t /\ in_i64 t) /\ in_i64 r
-    | M_Scheduler ref m' => len32 ref /\ valid_msg m'
+    | M_Scheduler ref m' => len32 ref /\ valid_msg m' /\ fits m'
     | M_JoinRequest ns tok => valid_ns_opt ns /\ len32 tok
     | M_JoinResponse v | M_Gossip v => valid_view_opt v
     | M_GetViewResponse v _ l => valid_view_opt v /\ len32 l
@@ -435,7 +438,7 @@ Section Msgs.
     | M_JoinRetryTick _ => True
     | M_ForceMemberDown id tok => len32 id /\ len32 tok
     | M_TriggerViewBroadcast tok => len32 tok
-    | M_SingletonFwd s a p m' => s = RAbsent /\ len32 a /\ len32 p /\ valid_msg m'
+    | M_SingletonFwd s a p m' => s = RAbsent /\ len32 a /\ len32 p /\ valid_msg m' /\ fits m'
     | M_TypedNil _ => False                       (* encode error, or decoded as a non-nil pointer *)
     | M_Outside u =>                              (* M9: the user Codec round-trips this value *)
         has_codec = true /\ exists d, cenc u = MOk d /\ len32 d /\ cdec d = MOk u
